@@ -154,7 +154,7 @@ fn fill_strategy() -> impl Strategy<Value = Fill> {
 }
 
 fn lib_strategy() -> impl Strategy<Value = LibCase> {
-    (spec_from(shape_strategy(1, 4, 1, 7, 2500), Kind::Mixed, 2500), fill_strategy()).prop_map(|(spec, fill)| LibCase { spec, fill })
+    (spec_from(shape_strategy(1, 5, 1, 7, 2500), Kind::Mixed, 2500), fill_strategy()).prop_map(|(spec, fill)| LibCase { spec, fill })
 }
 
 #[derive(Clone, Debug, Serialize, Deserialize)]
@@ -239,9 +239,13 @@ pub fn check(ctx: &Ctx) -> Check {
     let parts: Vec<Box<dyn Part>> = vec![
         Box::new(EnumPart {
             name: "lib-exhaustive",
-            rule: "every shape with <=4 axes of length <=5 (thorough <=7) x 4 fills x 3 non-ramp value vectors (two hashed-integer, one real); per-cell definition (2s vs T), mass / idempotence / polarity laws with fill 0; non-trivial = input not mirror-antisymmetric and (>=2 axes or a length-1 axis); distinct by shape",
+            rule: "every shape with <=4 axes of length <=5 (thorough <=7) and every 5-axis shape of length <=3 x 4 fills x 3 non-ramp value vectors (two hashed-integer, one real); per-cell definition (2s vs T), mass / idempotence / polarity laws with fill 0; non-trivial = input not mirror-antisymmetric and (>=2 axes or a length-1 axis); distinct by shape",
             exhaustive: true,
-            cases: Box::new(move |_| all_shapes(4, 1, max_len).into_iter().map(|shape| ShapeCase { shape }).collect()),
+            cases: Box::new(move |_| {
+                let mut v: Vec<ShapeCase> = all_shapes(4, 1, max_len).into_iter().map(|shape| ShapeCase { shape }).collect();
+                v.extend(all_shapes(5, 1, 3).into_iter().filter(|s| s.len() == 5).map(|shape| ShapeCase { shape }));
+                v
+            }),
             eval: Box::new(eval_shape),
         }),
         Box::new(RandomPart {
